@@ -1,9 +1,4 @@
-import Driver.Util
+import Driver.RpcTrace
 namespace Driver.C09
-open Mtv Driver
-
-/-- operations of property C09; not built yet -/
-def handle : List String → String
-  | _ => "bad-op"
-
+def handle (toks : List String) : String := Driver.RpcTrace.handle "c09" toks
 end Driver.C09
